@@ -60,6 +60,13 @@ fn cfg(tier: Tier, index: u64) -> HistCfg {
         c.ops.max_batch = 200;
         c.ops.val = ValProfile::Small;
         c.ops.w.bulk = 6;
+        if index % 60 == 1 {
+            // a pool large enough for batches of thousands of DISTINCT keys
+            c.n_keys = 2100..=3500;
+            c.key = KeyProfile::Short;
+            c.ops.n_ops = 1..=60;
+            c.ops.w.bulk = 25;
+        }
     }
     c
 }
